@@ -91,6 +91,10 @@ func (ex *Exec) tryIntrinsic(st *State, fn *ssa.Function, args []Value, depth in
 		}
 		return []Outcome{{St: st, Kind: ORet, Vals: vals}}, true
 	}
+	if f, ok := rangeStubs[name]; ok && ex.StubSets["range"] {
+		ex.noteStub("stub:" + name)
+		return ex.runIntrinsic(st, func(s *State) []Value { return f(ex, s, fn, args, depth) }), true
+	}
 	if f, ok := summaryIntrinsics[name]; ok && !ex.StubSets["nosum"] {
 		ex.noteStub("summary:" + name)
 		return ex.runIntrinsic(st, func(s *State) []Value { return f(ex, s, fn, args, depth) }), true
@@ -135,6 +139,16 @@ func (ex *Exec) shimIntrinsic(st *State, fn *ssa.Function, args []Value, depth i
 			}
 			return []Value{ex.newNondet(s, strings.TrimPrefix(name, "zzNondet"), k)}
 		}), true
+	}
+	if strings.HasPrefix(name, "zzNative") {
+		// functions that only do something in the native build (e.g. create a real interpreter
+		// as context); symbolically they return zero values (nil contexts)
+		res := fn.Signature.Results()
+		vals := make([]Value, res.Len())
+		for i := range vals {
+			vals[i] = ex.zero(res.At(i).Type())
+		}
+		return []Outcome{{St: st, Kind: ORet, Vals: vals}}, true
 	}
 	switch name {
 	case "zzNondetBool":
